@@ -532,6 +532,7 @@ class Lab:
             "status": getattr(market_book, "status", None),
             "market_closed": market.closed,
             "cleared_flags": (len(market.orders_cleared), len(market.market_cleared)),
+            "cleared_flags_aliased": market.orders_cleared is market.market_cleared,
             "book_is": market_book,
             # the per-runner matching state the simulated middleware exposes for this market (objects kept alive)
             "sim_state": list((market.context.get("simulated") or {}).values()) if hasattr(market, "context") else [],
